@@ -39,8 +39,8 @@ type c17Opts struct {
 // walkGraph explores the whole cursor graph reachable from the first page: every token handed out (next or previous, at
 // any position, including pages reached by stepping back) is fetched once; each page must be a page of the in-order
 // partition of the collection, next must lead to the following page and previous to the page before.
-func walkGraph(want []int64, pageSize uint64, fetch func(tok string) ([]int64, string, string, bool, error), viol func(kind, why string), states, transitions *int64) bool {
-	var pages [][]int64
+func walkGraph[T any](want []T, pageSize uint64, fetch func(tok string) ([]T, string, string, bool, error), viol func(kind, why string), states, transitions *int64) bool {
+	var pages [][]T
 	for i := 0; i < len(want); i += int(pageSize) {
 		j := i + int(pageSize)
 		if j > len(want) {
@@ -49,16 +49,16 @@ func walkGraph(want []int64, pageSize uint64, fetch func(tok string) ([]int64, s
 		pages = append(pages, want[i:j])
 	}
 	if len(pages) == 0 {
-		pages = [][]int64{nil}
+		pages = [][]T{nil}
 	}
 	type node struct {
 		tok  string
 		idx  int
 		path string
 	}
-	short := func(v []int64) string {
+	short := func(v []T) string {
 		if len(v) > 12 {
-			return fmt.Sprintf("[%d items %d..%d]", len(v), v[0], v[len(v)-1])
+			return fmt.Sprintf("[%d items %v..%v]", len(v), v[0], v[len(v)-1])
 		}
 		return fmt.Sprint(v)
 	}
@@ -72,7 +72,7 @@ func walkGraph(want []int64, pageSize uint64, fetch func(tok string) ([]int64, s
 		atomic.AddInt64(transitions, 1)
 		atomic.AddInt64(states, 1)
 		if err != nil {
-			if _, ok := err.(minidb.ErrUnsupported); ok {
+			if _, ok := err.(minidb.ErrUnsupported); ok || strings.Contains(err.Error(), "pgmini: unsupported") {
 				return false
 			}
 			viol("error", fmt.Sprintf("page fetch failed at %s: %v", n.path, err))
@@ -454,9 +454,9 @@ func c17() int {
 		}
 	})
 	tokenChecks(rep, &tokenEvals)
-	storeN := 5
+	storeN := 7
 	if rep.Thorough() {
-		storeN = 7
+		storeN = 10
 	}
 	storeWalks, storeFetches := c17StoreWalks(rep, storeN)
 	transitions += int64(storeFetches)
@@ -467,7 +467,7 @@ func c17() int {
 		"traces_validated_against_impl": len(jobs) + int(tokenEvals),
 		"samples":                       []interface{}{fmt.Sprintf("%+v", jobs[nSmall/2]), fmt.Sprintf("%+v", jobs[nSmall-1]), fmt.Sprintf("page=%d n=%d offset=%v", jobs[len(jobs)-1].page, len(jobs[len(jobs)-1].ids), jobs[len(jobs)-1].offset)},
 		"exhaustive":                    true,
-		"rule":                          fmt.Sprintf("cursor-graph walk of bunpaginate.UsingColumn / UsingOffset over an in-memory table (minidb executes the SQL they emit): collection sizes 0..%d (ids with gaps and dense) x page sizes 1..%d x both orders x with/without a filter = %d walks, plus %d walks with page sizes %v over collections of p-1, p, p+1, 2p-1, 2p, 2p+1, 3p+1 items; every walk is a breadth-first exploration of the whole cursor graph (each next and previous token handed out at any position is followed once), states = pages reached, transitions = page fetches; plus %d cursor tokens of filtered store listings (every filter expression to depth 2 over the keys of transactions / accounts / logs, PIT on/off) decoded and compared by the SQL they issue, directly and through GET ?cursor=; plus store-level walks: the real GetTransactions / GetAccountsWithVolumes / GetLogs executed on pgmini over ledgers of 0..%d transactions x every page size x with/without a metadata filter", maxN, maxN+1, nSmall, len(jobs)-nSmall, bigPages, tokenEvals, storeN),
+		"rule":                          fmt.Sprintf("cursor-graph walk of bunpaginate.UsingColumn / UsingOffset over an in-memory table (minidb executes the SQL they emit): collection sizes 0..%d (ids with gaps and dense) x page sizes 1..%d x both orders x with/without a filter = %d walks, plus %d walks with page sizes %v over collections of p-1, p, p+1, 2p-1, 2p, 2p+1, 3p+1 items; every walk is a breadth-first exploration of the whole cursor graph (each next and previous token handed out at any position is followed once), states = pages reached, transitions = page fetches; plus %d cursor tokens of filtered store listings (every filter expression to depth 2 over the keys of transactions / accounts / logs, PIT on/off) decoded and compared by the SQL they issue, directly and through GET ?cursor=; plus store-level walks: the real GetTransactions / GetAccountsWithVolumes / GetLogs executed on pgmini over ledgers of 0..%d transactions x every page size x with/without a metadata filter x with/without a point in time, each a breadth-first exploration of the whole cursor graph", maxN, maxN+1, nSmall, len(jobs)-nSmall, bigPages, tokenEvals, storeN),
 		"walks":                         len(jobs),
 		"store_level_walks":             storeWalks,
 		"store_level_fetches":           storeFetches,
